@@ -314,6 +314,8 @@ func runC05(c *Ctx) {
 	c.rule("R-CMP-SIGN", 1, "every test of a comparison function's result against a constant is a test of its sign only")
 	c.rule("R-REORDER-INSTALLS", 1, "Reorder stores its argument as the current comparison on every path")
 	c.rule("R-SORT-INPLACE", 1, "no function reachable from Sort replaces the queue's buffer by anything but a re-slice of itself")
+	c.rule("R-SORT-SHORTCUT", 0, "a sortedness shortcut in Sort uses the caller's comparison (no instance on the unchanged tree; the seeded change C05-sort-early-return-reversed-cmp is the positive example)")
+	c.rule("R-POP-CONSERVES", 1, "the removal helper writes the tail element into slot i before cutting the tail slot off (except when the heap has one element or i is the tail)")
 	c.rule("R-SET-REPLACES", 2, "Set resizes the buffer to len(vs) and copies vs in on every path (contents are what was put in)")
 	ruleCmpSign(c, "R-CMP-SIGN", c.P.PkgFuncs("heapq"))
 	m := buildHeapModel(c)
@@ -758,6 +760,102 @@ func runC05(c *Ctx) {
 		}
 		c.judge(len(bad) == 0, "R-SORT-INPLACE", "heapq.Sort:buffer stays the argument", sortFn.Pos(), fmt.Sprintf("%d buffer updates reachable from Sort, all re-slices of the same buffer", n), "Sort relies on the queue living in its argument, but a function it reaches replaces the buffer: "+strings.Join(bad, ", ")+" — from then on the sorted elements land in a private copy")
 	}
+	// ---- R-SORT-SHORTCUT: a sortedness test that lets Sort return early is made with the caller's order
+	if sortFn := P.Func("heapq", "", "Sort"); sortFn != nil && len(sortFn.Params) >= 1 {
+		var userCmp *ssa.Parameter
+		for _, p := range sortFn.Params {
+			if _, ok := p.Type().Underlying().(*types.Signature); ok {
+				userCmp = p
+			}
+		}
+		n := 0
+		for _, f := range buildCallScope(sortFn).fns {
+			allInstrs(f, func(in ssa.Instruction) {
+				call, ok := in.(*ssa.Call)
+				if !ok {
+					return
+				}
+				cal := call.Call.StaticCallee()
+				if cal == nil || origin(cal).Pkg == nil {
+					return
+				}
+				p, nm := origin(cal).Pkg.Pkg.Path(), origin(cal).Name()
+				if !((p == "slices" && (nm == "IsSortedFunc")) || (p == "sort" && nm == "SliceIsSorted")) || len(call.Call.Args) < 2 {
+					return
+				}
+				n++
+				arg := call.Call.Args[1]
+				if ct, ok := arg.(*ssa.ChangeType); ok {
+					arg = ct.X
+				}
+				c.judge(userCmp != nil && arg == ssa.Value(userCmp), "R-SORT-SHORTCUT", fmt.Sprintf("heapq.Sort:sortedness test #%d", n), call.Pos(), "tests sortedness under the caller's comparison", "Sort tests whether its input is already sorted with a comparison other than the caller's (a derived or reversed one): it returns early exactly on the inputs that are in the wrong order")
+			})
+		}
+	}
+	// ---- R-POP-CONSERVES: taking slot i out of the heap keeps the tail element
+	// the removal helper (one integer parameter i; returns the element read from slot i) cuts the last slot
+	// off; except where the heap has a single element or i is the last slot, the element of the last slot
+	// must first have been written into slot i — otherwise it is lost and the removed one stays
+	for _, fn := range m.methods {
+		if len(fn.Params) != 2 || !isIntType(fn.Params[1].Type()) || fn == m.swapFn || fn == m.siftUp || fn == m.siftDn {
+			continue
+		}
+		ip := fn.Params[1]
+		// truncating stores: q.data = q.data[:len-1]
+		var cuts []*ssa.Store
+		allInstrs(fn, func(in ssa.Instruction) {
+			st, ok := in.(*ssa.Store)
+			if !ok {
+				return
+			}
+			fa, ok := st.Addr.(*ssa.FieldAddr)
+			if !ok {
+				return
+			}
+			if _, f := fieldVarOf(fa); !sameField(f, m.dataF) {
+				return
+			}
+			sl, ok := st.Val.(*ssa.Slice)
+			if !ok || sl.Low != nil || sl.High == nil || !isLoadOfField(sl.X, m.dataF) {
+				return
+			}
+			if f, ok := affLenA(sl.High, m, nil); ok && f.a == 1 && f.d == 1 && f.b == -1 {
+				cuts = append(cuts, st)
+			}
+		})
+		if len(cuts) == 0 {
+			continue
+		}
+		c.sawFn(fnName(fn))
+		slotWrite := func(in ssa.Instruction) bool {
+			st, ok := in.(*ssa.Store)
+			if !ok {
+				return false
+			}
+			idx, ok := m.dataIndex(st.Addr)
+			return ok && (idx == ssa.Value(ip) || sameV(idx, ip))
+		}
+		for k, cut := range cuts {
+			key := fmt.Sprintf("heapq removal helper:tail kept #%d", k+1)
+			// exempt: the cut-off slot is slot i itself, or the heap had one element
+			exempt := false
+			hi := cut.Val.(*ssa.Slice).High
+			for _, cm := range cmpsAt(cut.Block()) {
+				if (cm.X == ssa.Value(ip) && cm.Y == hi || cm.Y == ssa.Value(ip) && cm.X == hi) && (cm.Op == token.EQL || (cm.X == ssa.Value(ip) && cm.Op == token.GEQ) || (cm.Y == ssa.Value(ip) && cm.Op == token.LEQ)) {
+					exempt = true
+				}
+				if cm.X == hi && isConstInt(cm.Y, 0) && (cm.Op == token.EQL || cm.Op == token.LEQ) {
+					exempt = true
+				}
+			}
+			if exempt {
+				c.ok("R-POP-CONSERVES", key, cut.Pos(), "the slot cut off is the removed one, or the only one")
+				continue
+			}
+			missing, wit := reachesWithout(P, firstInstr(fn), true, func(in ssa.Instruction) bool { return in == ssa.Instruction(cut) }, slotWrite)
+			c.judge(!missing, "R-POP-CONSERVES", key, cut.Pos(), "slot i receives the tail element before the tail slot is cut off", "the last slot is cut off on a path where slot i was never overwritten ("+wit+"): the element that was in the last slot is lost and the removed element stays in the heap")
+		}
+	}
 	// ---- R-SET-REPLACES: Set discards the previous contents on every path
 	if set := P.Func("heapq", "Queue", "Set"); set != nil && len(set.Params) == 2 {
 		c.sawFn(fnName(set))
@@ -966,6 +1064,12 @@ func runC06(c *Ctx) {
 				}
 			}
 			if full {
+				// … and no return is reachable from the bulk write without entering that loop
+				hdr := ph.Block()
+				if skip, wit := reachesWithout(P, at, false, isReturn, func(in3 ssa.Instruction) bool { return in3.Block() == hdr }); skip {
+					why = "a return is reachable after the bulk write without running the reporting loop (" + wit + "): the new occupants' positions are never reported on that path"
+					return
+				}
 				found = true
 			} else if why == "" {
 				why = "the reporting loop does not cover every index"
@@ -1017,6 +1121,10 @@ func runC06(c *Ctx) {
 					return
 				}
 				if dominatesInstr(at, call) {
+					if skip, wit := reachesWithout(P, at, false, isReturn, func(in3 ssa.Instruction) bool { return in3 == ssa.Instruction(call) }); skip {
+						why = "a return is reachable after the bulk write without running the reporting loop (" + wit + "): the new occupants' positions are never reported on that path"
+						return
+					}
 					found = true
 				} else if why == "" {
 					why = "the reporting loop does not come after the bulk write"
@@ -1292,7 +1400,12 @@ func (m *heapModel) lenAliases(fn *ssa.Function) map[ssa.Value]bool {
 }
 
 func affLen(v ssa.Value, m *heapModel, fn *ssa.Function) (aff, bool) {
-	alias := m.lenAliases(fn)
+	return affLenA(v, m, m.lenAliases(fn))
+}
+
+// affLenA: as affLen with an explicit alias set (nil: only len(q.data) itself —
+// for a value computed before the store that makes it an alias).
+func affLenA(v ssa.Value, m *heapModel, alias map[ssa.Value]bool) (aff, bool) {
 	var lenv ssa.Value
 	var find func(v ssa.Value, d int)
 	find = func(v ssa.Value, d int) {
